@@ -21,8 +21,10 @@ if not r["valid_seed"]:
     sys.exit(1)
 dst = os.path.join(VERIF, "seeded", sid)
 os.makedirs(dst, exist_ok=True)
-shutil.copy(os.path.join(src, "patch.diff"), os.path.join(dst, "patch.diff"))
-shutil.copy(os.path.join(src, "demo.py"), os.path.join(dst, "demo.py"))
+same = os.path.realpath(src) == os.path.realpath(dst)
+if not same:
+    shutil.copy(os.path.join(src, "patch.diff"), os.path.join(dst, "patch.diff"))
+    shutil.copy(os.path.join(src, "demo.py"), os.path.join(dst, "demo.py"))
 meta = {
     "id": sid,
     "property": r["property"],
@@ -38,5 +40,14 @@ meta = {
     "checks_run": {c: {"exit": v["rc"], "mechanisms": v["mechanisms"]} for c, v in r.get("checks", {}).items()},
     "caught_by": r["caught_by"],
 }
+if same:
+    # re-evaluation after the checks were strengthened: keep the first evaluation on record
+    old = agent_meta
+    meta["summary"], meta["needs_to_manifest"], meta["files"] = old.get("summary"), old.get("needs_to_manifest"), old.get("files")
+    meta["first_evaluation"] = old.get("first_evaluation") or {"checks_run": old.get("checks_run"), "caught_by": old.get("caught_by")}
+    merged = dict(old.get("checks_run") or {})
+    merged.update(meta["checks_run"])
+    meta["checks_run"] = merged
+    meta["caught_by"] = sorted(c for c, v in merged.items() if v["exit"] == 1)
 json.dump(meta, open(os.path.join(dst, "meta.json"), "w"), indent=1)
 print("kept as", dst)
